@@ -28,6 +28,7 @@ theorem tr_wordLd {cfg : Config} {s s' : State} {t : Tid} {site : WSite} {obs : 
     obtain ⟨hb, h⟩ := h
     cases h
     exact .loc (.sigLd _ _ hl (.inr ⟨rfl, hb.trans (by decide)⟩) ho)
+  · rename_i hl; cases h; exact .loc (.dbgLd _ hl ho)
   · cases h
 
 theorem tr_wordCas {cfg : Config} {s s' : State} {t : Tid} {exp new obs : Nat} {ok : Bool}
@@ -110,6 +111,12 @@ theorem tr_wordSt {cfg : Config} {s s' : State} {t : Tid} {site : WSite} {new ob
     obtain ⟨hh, n, hn, hsp, h⟩ := release_ok h
     cases h
     exact .relDeqW t new obs n hl hh hnew hn hsp
+  · rename_i hl
+    simp only [need_ok] at h
+    obtain ⟨hnew, h⟩ := h
+    obtain ⟨hh, n, hn, hsp, h⟩ := release_ok h
+    cases h
+    exact .relDbg t new obs n hl hh hnew hn hsp
   · cases h
 
 end NsyncVerif.CvFix
